@@ -1,0 +1,45 @@
+//go:build verif
+
+// Contracts for govc (contract-based deductive verification, /verif). Comment-only file:
+// it is compiled only under the build tag "verif" and contains no code.
+
+package textproto
+
+// the canonical form of a header field name (the canonicalisation itself is named, not verified)
+//@ spec canonKey(s string) string := abstract
+
+//@ func CanonicalMIMEHeaderKey
+//@   trusted names the canonical form; the table-driven canonicalisation (sync.Once initialised tables) is not verified
+//@   modifies nothing
+//@   ensures result0 == canonKey(s)
+
+//@ func (MIMEHeader).Get
+//@   props C26
+//@   nopanic
+//@   modifies nothing
+//@   ensures[first_value_of_the_canonical_key_or_empty] result0 == ((h != nil && has(h, canonKey(key)) && len(h[canonKey(key)]) > 0) ? h[canonKey(key)][0] : "")
+
+//@ func (MIMEHeader).Del
+//@   props C26
+//@   nopanic
+//@   modifies h[..]
+//@   ensures[the_canonical_key_is_gone] !has(h, canonKey(key))
+//@   ensures[other_keys_are_kept] forall k string :: k != canonKey(key) ==> (has(h, k) <==> old(has(h, k)))
+//@   ensures[other_values_are_kept] forall k string :: k != canonKey(key) ==> sameslice(h[k], old(h[k]))
+
+//@ func (MIMEHeader).Add
+//@   props C26
+//@   requires h != nil
+//@   let k0 := canonKey(key)
+//@   modifies h[..], h[k0][len(h[k0]):cap(h[k0])]
+//@   ensures[the_canonical_key_is_present] has(h, canonKey(key))
+//@   ensures[other_keys_are_kept] forall k string :: k != canonKey(key) ==> (has(h, k) <==> old(has(h, k)))
+//@   ensures[other_values_are_kept] forall k string :: k != canonKey(key) ==> sameslice(h[k], old(h[k]))
+//@   ensures[grown_in_place_or_freshly_allocated] base(h[canonKey(key)]) == old(base(h[canonKey(key)])) || !allocated(h[canonKey(key)])
+
+//@ func (MIMEHeader).Values
+//@   props C26
+//@   nopanic
+//@   modifies nothing
+//@   ensures[values_of_the_canonical_key] (h == nil || !has(h, canonKey(key))) ==> len(result0) == 0
+//@   ensures[values_of_the_canonical_key_when_present] h != nil && has(h, canonKey(key)) ==> sameslice(result0, h[canonKey(key)])
